@@ -290,6 +290,7 @@ func (q *Queue) run(highestKey uint64) {
 
 		case req := <-q.enqueueChan:
 			if req.idx <= highestKey {
+				vhook.Trace(q, "fifo.enq", "idx", req.idx, "stored", false, "high", highestKey)
 				req.respChan <- enqueueResp{err: nil}
 				stats.Add(numFIFOEnqueueIgnored, 1)
 				continue
@@ -310,6 +311,7 @@ func (q *Queue) run(highestKey uint64) {
 				return nil
 			})
 			vhook.Crash("fifo.enq.committed")
+			vhook.Trace(q, "fifo.enq", "idx", req.idx, "stored", err == nil, "high", highestKey)
 			req.respChan <- enqueueResp{err: err}
 			if err == nil && nextEv == nil {
 				if err := loadHead(); err != nil {
@@ -345,6 +347,7 @@ func (q *Queue) run(highestKey uint64) {
 				return nil
 			})
 			vhook.Crash("fifo.del.committed")
+			vhook.Trace(q, "fifo.del", "idx", req.idx, "ok", err == nil)
 			// Ensure cursor moves past deleted range
 			if err == nil && nextFrom != 0 && nextFrom <= req.idx {
 				nextFrom = req.idx + 1
